@@ -935,3 +935,356 @@ def check_c01(res):
             if is_crash(a):
                 res.violations.append(Violation("sanitizer-report-in-accessor:" + refs.crash_class(a), ln, a, cfg))
         res.sample({"cfg": cfg, "doc": lines[3][:100]})
+
+
+# =============================================================================== C11
+def c11_check_ranges(res, cfg, doc, obs, clj):
+    """ranges of every node: inside the input, children inside the parent, ordered, disjoint"""
+    so = refs.split_obs(obs)
+    if so[0] != "OK":
+        return []
+    root = refs.parse_dump(so[1])
+    bad = []
+    rereads = []
+
+    def synthetic(n, parent, in_meta):
+        return n.s == 0 and n.e == 0 and (in_meta or (clj and parent is not None and parent.kind == "map"))
+
+    def walk(n, parent, in_meta):
+        if synthetic(n, parent, in_meta):
+            for k in n.kids:
+                walk(k, n, in_meta)
+            return
+        if not (0 <= n.s <= n.e <= len(doc)) or (n.s == n.e):
+            bad.append(("range-outside-input-or-empty", "%s@%d-%d in document of %d bytes" % (n.kind, n.s, n.e, len(doc))))
+            return
+        if parent is not None and not synthetic(parent, None, in_meta) and not (parent.s <= n.s and n.e <= parent.e) and not in_meta:
+            bad.append(("child-range-outside-parent", "%s@%d-%d parent %s@%d-%d" % (n.kind, n.s, n.e, parent.kind, parent.s, parent.e)))
+        prev = None
+        for k in n.kids:
+            if synthetic(k, n, in_meta):
+                walk(k, n, in_meta)
+                continue
+            if prev is not None and n.kind in ("list", "vec", "map", "set") and k.s < prev.e:
+                bad.append(("sibling-ranges-overlap-or-out-of-order", "%s@%d-%d after %s@%d-%d" % (k.kind, k.s, k.e, prev.kind, prev.s, prev.e)))
+            prev = k
+            walk(k, n, in_meta)
+        if n.meta is not None:
+            walk(n.meta, n, True)
+        if not in_meta:
+            rereads.append(n)
+
+    walk(root, None, False)
+    return bad, rereads, root
+
+
+def dump_of(n, shift=0):
+    """canonical text of a parsed dump node without ranges (for re-read comparison)"""
+    if n.kids or n.kind in ("list", "vec", "map", "set", "tag"):
+        head = n.kind + ((":" + n.text) if n.text else "")
+        s = "(" + head + "".join(" " + dump_of(k) for k in n.kids) + ")"
+    else:
+        s = n.kind + ((":" + n.text) if n.text != "" or ":" in n.kind else "")
+        if n.kind in ("nil", "true", "false"):
+            s = n.kind
+    if n.meta is not None:
+        s += "^" + dump_of(n.meta)
+    return s
+
+
+@prop("C11")
+def check_c11(res):
+    rnd = random.Random(res.seed)
+    thorough = res.tier == "thorough"
+    res.rule = ("(a) generated multi-line documents with leading trivia, discards, tags (with and without handlers), metadata: "
+                "every non-synthetic node's range inside the input, inside its parent, siblings ordered and disjoint, and "
+                "re-reading exactly that byte range gives the same value; (b) corrupted / truncated / random documents with "
+                "0..5000 line feeds around 16-byte block edges: 0<=start<=end<=len and line/column = 1+LFs before / 1+distance "
+                "from the last LF (Python count). non-trivial = distinct document")
+    for cfg in CFGS:
+        clj = cfg[0] == "1"
+        g = Gen(res.seed * 17 + int(cfg, 2), clj=clj, exp=cfg[1] == "1")
+        docs = [g.document(3) for _ in range(500 if thorough else 150)]
+        docs += [b"\n\n ;c\n" + g.document(2) for _ in range(50)]
+        regs = ["-", "inst:0,uuid:1,x:5", "+"]
+        lines = [docline(d, reg=rnd.choice(regs)) for d in docs]
+        impl, model = correspond(res, cfg, "san", lines, label="ranges")
+        reread_lines, reread_meta = [], []
+        for d, ln, a in zip(docs, lines, impl):
+            res.nontrivial.add((cfg, d))
+            res.count("ok-doc" if a.startswith("OK") else "rejected-doc")
+            if is_crash(a) or not a.startswith("OK "):
+                continue
+            bad, rereads, root = c11_check_ranges(res, cfg, d, a, clj)
+            for kind, detail in bad:
+                res.violations.append(Violation(kind, ln, detail, cfg))
+            if " - " in ln:      # re-read only for documents read without handlers (handler results are not re-readable text)
+                for n in rereads[:40]:
+                    sub = d[n.s:n.e]
+                    reread_lines.append(docline(sub))
+                    reread_meta.append((ln, n))
+        rimpl = runner.run_impl(cfg, "san", reread_lines)
+        res.evaluations += len(reread_lines)
+        for (ln, n), sub_ln, a in zip(reread_meta, reread_lines, rimpl):
+            res.count("reread")
+            so = refs.split_obs(a)
+            if so[0] != "OK":
+                res.violations.append(Violation("range-does-not-reread", ln, "node %s@%d-%d: re-reading its bytes gives %s" % (n.kind, n.s, n.e, a[:80]), cfg))
+                continue
+            again = refs.parse_dump(so[1])
+            if dump_of(again) != dump_of(n):
+                res.violations.append(Violation("range-rereads-to-different-value", ln,
+                                                "node @%d-%d: %s vs %s" % (n.s, n.e, dump_of(n)[:100], dump_of(again)[:100]), cfg))
+        # (b) error positions
+        edocs = []
+        for _ in range(600 if thorough else 200):
+            d = g.corrupt(g.document(3))
+            if rnd.random() < 0.5:
+                nl = rnd.choice([0, 1, 2, 15, 16, 17, 31, 32, 33, 64, 100] + ([1000, 5000] if thorough else [300]))
+                pre = bytearray()
+                for _ in range(nl):
+                    pre += b" " * rnd.choice([0, 0, 1, 14, 15, 16]) + b"\n"
+                d = bytes(pre) + d
+            edocs.append(d)
+        edocs += [b"\n" * k + b"]" for k in (0, 1, 15, 16, 17, 63, 64, 65, 129)]
+        edocs += [b"\\u12", b"[\n\n  \\u12", b'"abc', b"[1 2\n", b"{:a\n}", b"#foo"]
+        lines = [docline(d) for d in edocs]
+        impl, model = correspond(res, cfg, "san", lines, label="error-positions")
+        for d, ln, a in zip(edocs, lines, impl):
+            so = refs.split_obs(a)
+            res.count("err-doc" if so[0] == "ERR" else "other-doc")
+            if so[0] != "ERR":
+                continue
+            (o1, l1, c1), (o2, l2, c2) = so[3], so[4]
+            if not (0 <= o1 <= o2 <= len(d)):
+                res.violations.append(Violation("error-range-outside-input", ln, "offsets %d..%d, length %d" % (o1, o2, len(d)), cfg))
+                continue
+            for (o_, l_, c_) in ((o1, l1, c1), (o2, l2, c2)):
+                if (l_, c_) != refs.line_col(d, o_):
+                    res.violations.append(Violation("error-line-column-wrong", ln,
+                                                    "offset %d: reported %d:%d, expected %d:%d" % ((o_, l_, c_) + refs.line_col(d, o_)), cfg))
+        res.sample({"cfg": cfg, "doc": lines[0][:120]})
+
+
+# =============================================================================== C13
+def c13_trivia(rnd, pool):
+    """pool: forms known to be well-formed on their own"""
+    k = rnd.random()
+    if k < 0.3:
+        return bytes([rnd.choice(WS_BYTES)])
+    if k < 0.5:
+        return bytes(rnd.choice(WS_BYTES) for _ in range(rnd.randrange(1, 41)))
+    if k < 0.65:
+        return b";" + bytes(rnd.choice(b"abc ;#\"[]{}\\~:^") for _ in range(rnd.randrange(0, 30))) + b"\n"
+    if k < 0.8:
+        return b"#_" + rnd.choice([b"", b" ", b"\n"]) + rnd.choice(pool) + b" "
+    if k < 0.9:
+        return b"#_ #_ " + rnd.choice(pool) + b" " + rnd.choice(pool) + b" "
+    return b"#_#inst[1 #_ 2 #uuid 3]" + b" "
+
+
+@prop("C13")
+def check_c13(res):
+    rnd = random.Random(res.seed)
+    thorough = res.tier == "thorough"
+    res.rule = ("generated documents x insertion points (start and end offset of every node, incl. directly before closing "
+                "delimiters and after tag symbols) x trivia strings (each of the 11 whitespace bytes, runs of 1..40, comments "
+                "ending in LF, nested and chained discards of every form kind containing registered tags); with registries so "
+                "that handler-call logs are compared; comment-to-EOF and trivia-only documents with and without eof value. "
+                "oracle: value (ranges stripped) and handler calls unchanged. non-trivial = distinct (document, point, trivia)")
+    for cfg in CFGS:
+        clj = cfg[0] == "1"
+        g = Gen(res.seed * 19 + int(cfg, 2), clj=clj, exp=cfg[1] == "1")
+        docs = [g.document(3) for _ in range(120 if thorough else 40)]
+        reg = "inst:0,uuid:1,x:5,my/tag:4"
+        cand = [g.form(2) for _ in range(200)]
+        okc = runner.run_impl(cfg, "prod", [docline(f) for f in cand])
+        pool = [f for f, a in zip(cand, okc) if a.startswith("OK ") and a.endswith("@0-%d calls=0" % len(f))] or [b"1"]
+        base_lines = [docline(d, reg=reg) for d in docs]
+        base = runner.run_impl(cfg, "san", base_lines)
+        lines, meta = [], []
+        for d, a in zip(docs, base):
+            if not a.startswith("OK "):
+                continue
+            # insertion points come from a registry-free read (generic tagged values keep all ranges)
+            plain = runner.run_impl(cfg, "prod", [docline(d)])[0]
+            if not plain.startswith("OK "):
+                continue
+            root = refs.parse_dump(refs.split_obs(plain)[1])
+            pts = set()
+
+            def walk(n):
+                if not (n.s == 0 and n.e == 0):
+                    pts.add(n.s)
+                    pts.add(n.e)
+                for k in n.kids:
+                    walk(k)
+                if n.meta is not None:
+                    pass
+            walk(root)
+            pts = sorted(p for p in pts if 0 <= p <= len(d))
+            if len(pts) > 12 and not thorough:
+                pts = rnd.sample(pts, 12)
+            for p in pts:
+                for _ in range(3 if thorough else 2):
+                    t = c13_trivia(rnd, pool)
+                    # trivia inserted at a token end needs the token to stay delimited: all trivia starts with a delimiter
+                    lines.append(docline(d[:p] + t + d[p:], reg=reg))
+                    meta.append((d, p, t, a))
+        impl, model = correspond(res, cfg, "san", lines, label="trivia-insertion")
+        for (d, p, t, a0), ln, a in zip(meta, lines, impl):
+            res.nontrivial.add((cfg, d, p, t))
+            res.count("insertion:" + ("discard" if t.startswith(b"#_") else "comment" if t.startswith(b";") else "ws"))
+            if is_crash(a):
+                res.violations.append(Violation("trivia-crash", ln, a, cfg))
+                continue
+            strip = lambda x: re.sub(r":h(\d+)@\d+", r":h\1", strip_ranges(x))
+            if strip(a) != strip(a0):
+                res.violations.append(Violation("trivia-changes-value-or-handler-calls", ln,
+                                                "inserting %r at %d of %r: %s vs %s" % (t, p, d[:60], strip(a)[:150], strip(a0)[:150]), cfg))
+        # trivia-only documents
+        tl, tmeta = [], []
+        for _ in range(200 if thorough else 80):
+            t = b"".join(c13_trivia(rnd, pool) for _ in range(rnd.randrange(0, 4)))
+            if rnd.random() < 0.3:
+                t += b"; comment to EOF"
+            for eof in (0, 1):
+                tl.append(docline(t, reg=reg, eof=eof))
+                tmeta.append((t, eof))
+        impl, model = correspond(res, cfg, "san", tl, label="trivia-only")
+        for (t, eof), ln, a in zip(tmeta, tl, impl):
+            res.count("trivia-only")
+            want_prefix = "EOFVALUE" if eof else "ERR UNEXPECTED_EOF"
+            if not a.startswith(want_prefix) or "calls=0" not in a:
+                res.violations.append(Violation("trivia-only-not-end-of-input", ln, "%r (eof=%d) -> %s" % (t[:60], eof, a[:100]), cfg))
+        res.sample({"cfg": cfg, "doc": lines[0][:140] if lines else ""})
+
+
+# =============================================================================== C14
+def c14_expected(node, reg, mode, discard=False):
+    """transform a registry-free dump tree by the configured dispatch: returns (text, calls) or raises Fail"""
+    class Fail(Exception):
+        pass
+
+
+@prop("C14")
+def check_c14(res):
+    rnd = random.Random(res.seed)
+    thorough = res.tier == "thorough"
+    res.rule = ("(a) all register / re-register / unregister / lookup sequences up to length %d over 4 tag names (incl. a pair "
+                "colliding in the 16-bucket table) x 2 handlers, and the same for the external-type table: oracle = last "
+                "registered entry or none (Python dict); (b) generated documents with tags from registered / unregistered / "
+                "namespaced names at every nesting position x 3 default modes x {registry, none} x inside/outside discards: "
+                "model vs implementation, plus oracle derived from the registry-free reading (handler applied once, inner "
+                "first, failure -> INVALID_SYNTAX with the handler's message, defaults). non-trivial = distinct sequence / document"
+                % (6 if thorough else 4))
+    import itertools
+    # a colliding pair for the FNV-1a 16-bucket table
+    def fnv(b):
+        h = 14695981039346656037
+        for ch in b:
+            h = ((h ^ ch) * 1099511628211) % 2 ** 64
+        return h
+    names = ["a", "b"]
+    want = fnv(b"a") % 16
+    k = 0
+    while len(names) < 3:
+        cand = "t%d" % k
+        if fnv(cand.encode()) % 16 == want:
+            names.append(cand)
+        k += 1
+    names.append("ns/x")
+    ops = []
+    for nme in names:
+        ops += ["r%s:0" % nme, "r%s:1" % nme, "u%s" % nme, "l%s" % nme]
+    L = 6 if thorough else 4
+    seqs = []
+    for n in range(1, L + 1):
+        allseq = itertools.product(ops, repeat=n)
+        if n >= 4:
+            allseq = [s for s in allseq if rnd.random() < (0.02 if n == 4 and not thorough else 0.002 if n >= 5 else 1)]
+        for sq in allseq:
+            seqs.append(list(sq) + ["l%s" % nme for nme in names])
+    lines = ["reg " + ";".join(sq) for sq in seqs]
+    for cfg in (CFGS if thorough else ["00", "11"]):
+        impl, model = correspond(res, cfg, "san", lines, label="registry-ops", jobs=12)
+        for sq, ln, a in zip(seqs, lines, impl):
+            res.nontrivial.add(ln)
+            res.count("registry-seq")
+            d = {}
+            want = []
+            for op in sq:
+                if op[0] == "r":
+                    nm, h = op[1:].rsplit(":", 1)
+                    d[nm] = int(h)
+                    want.append("1")
+                elif op[0] == "u":
+                    d.pop(op[1:], None)
+                    want.append("-")
+                else:
+                    want.append("h%d" % d[op[1:]] if op[1:] in d else "none")
+            if a != ";".join(want):
+                res.violations.append(Violation("registry-is-not-a-map", ln, "%s expected %s" % (a, ";".join(want)), cfg))
+    # external type table
+    eops = []
+    for i in (5, 21, 4294967295):
+        eops += ["r%d:0" % i, "r%d:1" % i, "u%d" % i, "l%d" % i]
+    eseqs = []
+    for n in range(1, 5):
+        for sq in itertools.product(eops, repeat=n):
+            if n >= 3 and rnd.random() > (0.15 if n == 3 else 0.01):
+                continue
+            eseqs.append(list(sq) + ["l5", "l21", "l4294967295"])
+    elines = ["ext " + ";".join(sq) for sq in eseqs]
+    impl, model = correspond(res, "00", "san", elines, label="ext-table-ops", jobs=12)
+    for sq, ln, a in zip(eseqs, elines, impl):
+        res.count("ext-seq")
+        d = {}
+        want = []
+        for op in sq:
+            if op[0] == "r":
+                i, kk = op[1:].split(":")
+                d[i] = int(kk)
+                want.append("1")
+            elif op[0] == "u":
+                d.pop(op[1:], None)
+                want.append("-")
+            else:
+                want.append(("k%d%d" % (d[op[1:]], d[op[1:]])) if op[1:] in d else "none")
+        if a != ";".join(want):
+            res.violations.append(Violation("external-type-table-is-not-a-map", ln, "%s expected %s" % (a, ";".join(want)), "00"))
+    # documents
+    for cfg in CFGS:
+        g = Gen(res.seed * 23 + int(cfg, 2), clj=cfg[0] == "1", exp=cfg[1] == "1", tags=("inst", "uuid", "my/tag", "x", "y", "fail", "nomsg"))
+        docs = [g.document(4) for _ in range(300 if thorough else 100)]
+        docs += [b"#inst #uuid #x 1", b"[#fail 1 #inst 2]", b"#_ #fail 1 #inst 2", b"#inst #_ #fail 1 2", b"#nomsg [#inst 1]",
+                 b"{#inst 1 #uuid 2}", b"#{#x 1}", b"#y #y #y 1", b"#my/tag {:a #inst 1}"]
+        regs = ["-", "+", "inst:0,uuid:1,fail:2,nomsg:3,my/tag:4,x:5"]
+        lines, meta = [], []
+        for d in docs:
+            for reg in regs:
+                for mode in (0, 1, 2):
+                    lines.append(docline(d, reg=reg, mode=mode))
+                    meta.append((d, reg, mode))
+        impl, model = correspond(res, cfg, "san", lines, label="tag-dispatch", jobs=12)
+        byplain = {}
+        for (d, reg, mode), ln, a in zip(meta, lines, impl):
+            res.count("dispatch:" + ("noreg" if reg == "-" else "empty" if reg == "+" else "reg") + ":m%d" % mode)
+            if is_crash(a):
+                res.violations.append(Violation("tag-dispatch-crash", ln, a, cfg))
+                continue
+            if reg == "-":
+                byplain.setdefault(d, a)
+                if a != byplain[d]:
+                    res.violations.append(Violation("default-mode-matters-without-registry", ln, a[:100], cfg))
+                if "calls=0" not in a:
+                    res.violations.append(Violation("handler-called-without-registry", ln, a[:100], cfg))
+        for (d, reg, mode), ln, a in zip(meta, lines, impl):
+            if reg == "-" or d not in byplain or not byplain[d].startswith("OK "):
+                continue
+            want = refs.dispatch_oracle(refs.split_obs(byplain[d])[1], reg, mode)
+            got = refs.strip_for_dispatch(a)
+            if want is not None and got != want:
+                res.violations.append(Violation("tag-dispatch-differs-from-configuration", ln,
+                                                "%r reg=%s mode=%d: %s expected %s" % (d[:60], reg, mode, got[:160], want[:160]), cfg))
+        res.sample({"cfg": cfg, "doc": lines[5][:120]})
